@@ -11,6 +11,12 @@ namespace app {
 namespace json = boost::json;
 
 static bool fails_with(const Plan& p, const std::string& sig, Violation* vout, uint64_t* hash) {
+    if (p.knobs.focus == "C19diff") {
+        Sim* s0 = nullptr;
+        auto vs = run_diff(p, &s0, nullptr);
+        for (auto& v : vs) if (v.signature() == sig) { if (vout) *vout = v; if (hash) *hash = s0->w.trace_hash; return true; }
+        return false;
+    }
     Sim s(p, false);
     s.execute();
     auto vs = check_all(s, sig.substr(0, sig.find('/')));
